@@ -118,6 +118,7 @@ void harness(void)
             }
         }
     }
+    VF_FORGET(conv_out); VF_FORGET(ls_base);
     VF_END();
     /* --memory-leak-check: the converter's buffer must have been freed exactly once */
 }
